@@ -305,7 +305,7 @@ theorem likEdge_child {k : Nat} {prev : Tree} {M : Mat} {slots : List (Term × T
         | ok lrD =>
           obtain ⟨l, r, D⟩ := lrD
           simp only [hid, Bool.and_eq_true, beq_iff_eq] at hc
-          obtain ⟨⟨⟨⟨hl, hr⟩, hsame⟩, hndD⟩, hflow⟩ := hc
+          obtain ⟨⟨⟨⟨⟨hl, hr⟩, hsame⟩, hndD⟩, hflow⟩, _hsorted⟩ := hc
           subst hl hr
           simp only [flowOK, Bool.and_eq_true] at hflow
           obtain ⟨hL, hR⟩ := hflow
@@ -590,7 +590,7 @@ theorem edgePlan_spec {prev : Tree} {e : Edge}
         | ok lrD =>
           obtain ⟨l, r, D⟩ := lrD
           simp only [hid, Bool.and_eq_true, beq_iff_eq] at hc
-          obtain ⟨⟨⟨⟨hl, hr⟩, hsame⟩, hndD⟩, hflow⟩ := hc
+          obtain ⟨⟨⟨⟨⟨hl, hr⟩, hsame⟩, hndD⟩, hflow⟩, _hsorted⟩ := hc
           subst hl hr
           simp only [flowOK, Bool.and_eq_true] at hflow
           obtain ⟨hL, hR⟩ := hflow
